@@ -1038,6 +1038,15 @@ func (o *oracles) checkRecovered(h *Host, st raft.VerifState) {
 	// every entry whose save was reported durable is still there (the shadow
 	// follows legitimate overwrites by newer leaders, so its end is what must
 	// have survived; acknowledgements were checked against it when they left)
+	// a snapshot record that arrived through SaveRaftState (InstallSnapshot on a
+	// follower) stands for every entry up to its index: the replica
+	// acknowledges that index to the leader right after the save
+	if sh.ssIndex > 0 && sh.ssIndex >= sh.last && !s.importMode {
+		s.ctx.Count("probe.recovery_checked_snapshot_record", 1)
+		if st.LastIndex < sh.ssIndex {
+			s.ctx.Violate("C04", "acked-entry-lost", "replica %d restarted with last index %d, the save of a snapshot record at index %d had been reported durable", st.ReplicaID, st.LastIndex, sh.ssIndex)
+		}
+	}
 	if sh.last > 0 && sh.last > sh.ssIndex && !s.importMode {
 		if st.LastIndex < sh.last {
 			s.ctx.Violate("C04", "acked-entry-lost", "replica %d restarted with last index %d, saves up to index %d had been reported durable", st.ReplicaID, st.LastIndex, sh.last)
